@@ -2084,3 +2084,17 @@ Proof.
     + rewrite close_fd_writers. reflexivity.
   - congruence.
 Qed.
+
+Lemma acc_is_written s o w wr' :
+  nth_error (writers (fst (step s o))) w = Some wr' ->
+  match nth_error (writers s) w with
+  | Some wr => w_key wr' = w_key wr /\
+               (w_acc wr' = w_acc wr \/
+                exists bs, o = Write w bs /\ w_status wr = WOpen /\ w_acc wr' = w_acc wr ++ bs)
+  | None => w_acc wr' = [] /\ w_status wr' = WOpen /\ exists k d p, o = Add k d p /\ w_key wr' = k
+  end.
+Proof.
+  intros H. destruct (nth_error (writers s) w) as [wr|] eqn:E.
+  - exact (step_acc s o w wr wr' E H).
+  - exact (step_new_writer s o w wr' E H).
+Qed.
